@@ -417,6 +417,10 @@ def run(rep):
              '__adapt__ walks it (the Python reference iterates the live list): the C '
              'walk bounds its index by the CURRENT list size at every step and holds '
              'each hook across its call', floor=1)
+    rep.rule('R14.8', '"obj itself if it provides I" means I.providedBy(obj) - a method '
+             'an interface may override with @interfacemethod: the C __adapt__, which '
+             'inlines the default providedBy, must not be what such an interface uses '
+             '(shared with C10 F13)', floor=1)
     rep.decline('none (relative to providedBy, C01, and the registry lookup, '
                 'C04/C08)')
 
@@ -546,7 +550,10 @@ def run(rep):
         kinds.add(own)
         if flag is not None:
             inh.add(flag)
-        need = bool(own) or bool(flag)
+        # an __adapt__ put among the methods on this path counts like a given one
+        put = [e for e in ps.stores() if isinstance(e.r, ast.Subscript)
+               and _nt(e.r.slice) == "'__adapt__'"]
+        need = bool(own) or bool(flag) or bool(put)
         if need != (len(st) == 1) or len(st) > 1:
             pw.append("__adapt__ given: %s, inherited flag: %s, flag stores: %d"
                       % (own, flag, len(st)))
@@ -629,6 +636,10 @@ def run(rep):
     # the verifying registry's two entries (the hook and queryAdapter) run the
     # same generation check before the same worker, so they answer alike
     cside.verify_first(rep, u, rule='R14.6', only=('adapter_hook', 'queryAdapter'))
+
+    # ---- R14.8 ---------------------------------------------------------------
+    from . import csem as _csem8
+    _csem8.adapt_dispatch(rep, 'R14.8', u, mod)
 
     # ---- R14.7 ---------------------------------------------------------------
     from . import csem as _csem
